@@ -338,6 +338,54 @@ Section Compile.
   Lemma merge_all_nil : merge_all [] = Ok [].
   Proof. reflexivity. Qed.
 
+  Definition spec_full : res (dict * str) :=
+    if empty_raises V && empty_pieces_case V C H render_o yload matches t then Err ValueError else get_full_spec.
+  Definition result_full (r : res (dict * str * option item)) : res (dict * str) :=
+    match r with Ok (d, v, _) => Ok (d, v) | Err e => Err e end.
+
+  (* data AND version of compile_data, for any usable old cache item *)
+  Theorem compile_full oc : item_ok oc -> result_full (compile oc) = spec_full.
+  Proof.
+    intros Hok. pose proof (process_top_spec oc Hok) as Pt. destruct Hok as (_ & Hoc & Hres).
+    unfold Target.compile, spec_full, Target.get_full_spec, Target.empty_pieces_case, Target.spec_pieces.
+    destruct (process_top oc) as [[fl tv]|x]; cbn [bind fst snd] in *; rewrite Pt; cbn [bind]; [|now rewrite andb_false_r].
+    assert (Fin : forall pl nc (P : Forall piece_ok pl),
+      result_full
+        (match i_result oc with
+         | Some (rd, rv) =>
+             if str_eqb rv (aggregate_version H (map snd pl)) then Ok (rd, rv, None)
+             else bind (merge_all (map fst pl)) (fun d =>
+                    Ok (d, aggregate_version H (map snd pl),
+                        Some {| i_top := Some (fl, tv); i_files := nc; i_result := Some (d, aggregate_version H (map snd pl)) |}))
+         | None =>
+             bind (merge_all (map fst pl)) (fun d =>
+               Ok (d, aggregate_version H (map snd pl),
+                   Some {| i_top := Some (fl, tv); i_files := nc; i_result := Some (d, aggregate_version H (map snd pl)) |}))
+         end) = bind (merge_all (map fst pl)) (fun d => Ok (d, aggregate_version H (map snd pl)))).
+    { intros pl nc P. destruct (i_result oc) as [[rd rv]|].
+      - destruct (str_eqb rv (aggregate_version H (map snd pl))) eqn:Ev.
+        + apply str_eqb_eq in Ev. cbn [result_full]. rewrite (Hres pl P (eq_sym Ev)). cbn [bind fst]. now rewrite Ev.
+        + destruct (merge_all (map fst pl)); reflexivity.
+      - destruct (merge_all (map fst pl)); reflexivity. }
+    destruct fl as [[|x r]|].
+    - cbn [bind fst snd]. rewrite andb_false_r. apply (Fin [] [] (Forall_nil _)).
+    - pose proof (pfiles_rel (i_files oc) Hoc (fuel_for t) [[s_topfile]] (map name_of_top_elem (x :: r)) [] nc_ok_nil) as R.
+      destruct (pfiles (fuel_for t) (i_files oc) [[s_topfile]] (map name_of_top_elem (x :: r)) []) as [[pl nc]|e]; cbn [bind fst snd].
+      + destruct R as (E1 & _ & P). rewrite E1.
+        destruct pl as [|q pl']; cbn [map].
+        * destruct (empty_raises V); cbn [andb bind result_full]; [reflexivity|]. apply (Fin [] nc (Forall_nil _)).
+        * rewrite andb_false_r. cbn [bind]. apply (Fin (q :: pl') nc P).
+      + rewrite R. now rewrite andb_false_r.
+    - cbn [bind fst snd]. rewrite andb_false_r. apply (Fin [] [] (Forall_nil _)).
+  Qed.
+
+  Lemma spec_full_data : match spec_full with Ok dv => Ok (fst dv) | Err e => Err e end = spec_result.
+  Proof.
+    unfold spec_full, spec_result, Target.get_full_spec, Target.get_data_spec.
+    destruct (empty_raises V && empty_pieces_case V C H render_o yload matches t); [reflexivity|].
+    destruct spec_pieces as [ps|e]; cbn [bind]; [|reflexivity]. destruct (merge_all (map fst ps)); reflexivity.
+  Qed.
+
   Theorem compile_spec oc : item_ok oc -> result_data (compile oc) = spec_result.
   Proof.
     intros Hok. pose proof (process_top_spec oc Hok) as Pt. destruct Hok as (_ & Hoc & Hres).
